@@ -22,7 +22,7 @@ COQ = os.path.join(VERIF, "coq")
 EVID = os.path.join(VERIF, "evidence")
 REPLAY = os.path.join(VERIF, "replay")
 WORKROOT = os.path.join(VERIF, ".work")
-KNOWN = os.path.join(VERIF, "known_findings.json")
+KNOWN_DIR = os.path.join(VERIF, "known_findings.d")
 
 COQ_TIMEOUT = 600
 
@@ -142,7 +142,7 @@ class Ctx:
     # -- known findings --------------------------------------------------------
     def _load_known(self):
         try:
-            with open(KNOWN) as f:
+            with open(os.path.join(KNOWN_DIR, self.pid + ".json")) as f:
                 d = json.load(f)
         except FileNotFoundError:
             return {}
@@ -227,20 +227,42 @@ class Ctx:
             return 99, "", repr(e)
 
     def make(self, targets, timeout=1800):
-        """Bring hand-written .vo files up to date (no-op after setup)."""
-        if not os.path.exists(os.path.join(COQ, "Makefile")):
-            subprocess.run(
-                ["coq_makefile", "-f", "_CoqProject", "-o", "Makefile"],
-                cwd=COQ,
-                capture_output=True,
-            )
-        p = subprocess.run(
-            ["timeout", str(timeout), "make", "-j8"] + list(targets),
-            cwd=COQ,
-            capture_output=True,
-            text=True,
-        )
-        return p.returncode, p.stdout + p.stderr
+        """Bring the listed .vo files up to date, in the order given (the list
+        must be in dependency order; files outside it - Base/* - are built by
+        setup).  Each file is compiled with coqc when its .vo is missing, older
+        than its .v, or an earlier file of the list was just rebuilt.  A lock
+        serialises concurrent checks."""
+        import fcntl
+
+        out = []
+        rc = 0
+        with open(os.path.join(COQ, ".lock"), "w") as lk:
+            fcntl.flock(lk, fcntl.LOCK_EX)
+            rebuilt = False
+            for t in targets:
+                v = os.path.join(COQ, t[:-1])
+                vo = os.path.join(COQ, t)
+                if not os.path.exists(v):
+                    rc = 1
+                    out.append(f"missing source {v}")
+                    break
+                stale = (not os.path.exists(vo)) or os.path.getmtime(v) > os.path.getmtime(vo) or rebuilt
+                if not stale:
+                    continue
+                p = subprocess.run(
+                    ["timeout", str(timeout), "coqc", "-Q", COQ, "QV", v],
+                    capture_output=True, text=True, cwd=COQ,
+                )
+                rebuilt = True
+                if p.returncode != 0:
+                    rc = p.returncode
+                    out.append(f"coqc {t} failed:\n" + (p.stdout + p.stderr)[-2500:])
+                    try:
+                        os.remove(vo)
+                    except OSError:
+                        pass
+                    break
+        return rc, "\n".join(out)
 
     def regen(self, relpath, text):
         """Write a regenerated model file under coq/ if its text changed."""
